@@ -140,6 +140,9 @@ func runC17(c *harness.Ctx, idx int) {
 		c.Inconclusive("child under depth=%q size=%q placement=%s: %v", depth, size, place, err)
 		return
 	}
+	if err != nil && strings.HasPrefix(err.Error(), "child blocked") {
+		c.Abort() // the other configurations of this shard would block the same way, 150 s each
+	}
 	if err != nil {
 		c.Violation("child-died", "C17/child-died/"+place, "child failed under depth=%q size=%q placement=%s: %v", depth, size, place, err)
 		return
